@@ -96,6 +96,8 @@ var (
 	genExtract = []string{
 		`{0}`, `{1}`, `{2}`, `{1} {2}`, `{src}:{line}`, `{@}`, `{3}`, `{5}`,
 		`{prefix {0} GET}`, `{bucket {2} 100}`, `{if {eq {1} GET} g {1}}`, `{upper {1}}`, `{src}:{line}:{0}`, `{len {0}}`,
+		// stages that take objects from the process-wide pools
+		`{@join {@map {@split {0} " "} "{upper {0}}"} -}`, `{@reduce {@split {0} " "} "{sumi {len {0}} {len {1}}}"}`,
 	}
 	genExtractNamedRe = []string{`{verb}`, `{code}-{path}`, `{verb} {2}`}
 	genExtractNamedDs = map[string][]string{
@@ -141,6 +143,10 @@ func genLine(t *simrt.Tape) string {
 func genCorpus(t *simrt.Tape, maxLines int) []byte {
 	n := t.WRange(0, maxLines)
 	var b bytes.Buffer
+	if n > 0 && t.WBool(1, 16) {
+		// a plain file that begins with the gzip magic bytes (under -z it must still be read from its first byte)
+		b.WriteString("\x1f\x8b\x07 ") // (compression method 7 is not a gzip header: gzip.ErrHeader, read as plain)
+	}
 	for i := 0; i < n; i++ {
 		b.WriteString(genLine(t))
 		last := i == n-1
@@ -210,6 +216,9 @@ func genPipeScenario(rc *RunCtx, allowStdin bool, maxLinesPerInput int) *pipeSce
 	}
 	sc.Batch = []int{1, 2, 3, 5, 1000}[t.W(5)]
 	sc.Workers = t.WRange(1, 4)
+	if t.WBool(1, 12) {
+		sc.Workers = 0 // "use the default" (two workers)
+	}
 	sc.Readers = t.WRange(1, 3)
 	sc.Buffer = t.WRange(1, 4)
 	if t.WBool(1, 2) {
